@@ -37,11 +37,11 @@ def apply_transform(fn, limit: int = 20):
         signal.setitimer(signal.ITIMER_REAL, 0)
 
 
-def make_pairs(progs_src, configs, rng, nvec: int, stats: Counter, vectors_fn=None):
+def make_pairs(progs_src, configs, rng, nvec: int, stats: Counter, vectors_fn=None, pid0: int = 0):
     """progs_src: list of (name, Function, source).  configs: list of (cfgname, fn -> Function).
     Returns (pairs, timeouts) where a pair is (orig_prog, xf_prog, meta)."""
     pairs, timeouts = [], []
-    pid = 0
+    pid = pid0
     for (name, fn, src) in progs_src:
         vec = (vectors_fn or progrun.input_vectors)(rng, nvec)
         try:
